@@ -55,8 +55,9 @@ var (
 	ppArmedN    int64
 	// the closeNext counter of the upstream that is about to close a fresh connection (set by the "ac" operation)
 	ppAcceptClosed *int32
-	ppCloseSeen = make(chan struct{}, 64)
+	ppCloseSeen    = make(chan struct{}, 64)
 )
+
 func (c *ppCodec) ProtocolMatch() api.ProtocolMatch { return nil }
 func (c *ppCodec) HTTPMapping() api.HTTPMapping     { return c.inner.HTTPMapping() }
 
